@@ -144,6 +144,7 @@ def idem_suite(res, tier, seed):
     rng = random.Random(seed * 17 + 303)
     n = 6000 if tier == "quick" else 100000
     cases = [parsesuite.gen_case(rng) if i % 3 else parsesuite.gen_union_case(rng) for i in range(n)]
+    cases += [parsesuite.gen_rule_union_case(rng) for _ in range(n // 4)]
     outs = core.pool_map(run_idem, cases)
     kinds = {}
     for o in outs:
@@ -165,6 +166,19 @@ def idem_suite(res, tier, seed):
                   dict(outcomes=kinds, failures_inside_known_findings=known_hits))
 
 
+def carried_out(c):
+    """the listed finding's second form: the carry left an integer part with more digits than the bound allows (or the bound
+    is 0), so no rounding of decimals can help and a second application can only raise"""
+    from utype.parser.rule import Constraints
+    if c["bound"] == 0:
+        return True
+    try:
+        w = Constraints.lax_max_digits(c["value"], c["bound"])
+        return len(str(abs(int(w)))) > c["bound"]
+    except Exception:
+        return False
+
+
 def lax_suite(res, tier, seed):
     rng = random.Random(seed * 13 + 77)
     n = 4000 if tier == "quick" else 60000
@@ -177,8 +191,10 @@ def lax_suite(res, tier, seed):
     for c in cases:
         msg = lax_fixed_point(c)
         if msg:
-            if c["name"] == "max_digits":
-                continue      # known finding C03-carry: matcher "lax-max-digits" (replayed separately)
+            if c["name"] == "max_digits" and ("does not satisfy the strict constraint" in msg or ("again raises" in msg and carried_out(c))):
+                continue      # exactly the listed finding C03-carry (a carry adds a digit; max_digits=0): replayed separately.
+                              # any other failure of lax max_digits (a second application raising for a positive bound,
+                              # a different value the second time) is reported
             bad.append((c, msg))
     res.add_suite("lax-fixed-point", len(cases), len({repr((c["name"], c["value"], c["bound"])) for c in cases}),
                   [repr(cases[0])], "lax validators of the implementation applied twice; on exact domains the output is "
@@ -196,7 +212,16 @@ def main(tier, seed):
     rng = random.Random(seed * 29 + 5)
     n = 3000 if tier == "quick" else 60000
     cases = [parsesuite.gen_case(rng) if i % 2 else parsesuite.gen_union_case(rng) for i in range(n)]
-    parsesuite.run_suite(res, cases, "parse")
+    cases += [parsesuite.gen_rule_union_case(rng) for _ in range(n)]
+    mism = parsesuite.run_suite(res, cases, "parse")
+    # a listed finding is a behaviour the model has too: where the implementation leaves the model, a failure of idempotence is
+    # a different violation, whatever the matchers say
+    if mism:
+        outs = core.pool_map(run_idem, [c for c, _ in mism[:400]])
+        for (c, _), o in zip(mism, outs):
+            if o[0] == "not-idempotent":
+                res.violations.append(dict(case=repr(c), observed="first parse %s, second %s (the model disagrees with the implementation on this case)" % (o[1], o[2]),
+                                           what="re-parsing a parse result does not return an equal value"))
     findings.replay_all(res, PID, {"C03-carry": carry_finding, "C03-and-hetero": and_finding, "C03-xor-output": xor_finding, "C03-preserve": preserve_finding, "C03-exclude": exclude_finding,
                                     "C03-union-stage-shift": union_shift_finding})
     return core.finish(res, "make -C coq Props/C03.vo && coqc (Print Assumptions audit)", "see suites", search=None,
